@@ -63,7 +63,9 @@ fn emit_sequence(
     }
     out.push(json!("/ev"));
 
-    for (index, _) in sequence.branches.iter().enumerate() {
+    // One test per branch, including the empty final branch of a once-only sequence:
+    // it must be entered too, so that its `pop` removes the duplicated index.
+    for index in 0..branch_count {
         out.push(json!("ev"));
         out.push(json!("du"));
         out.push(json!(index as i32));
